@@ -479,4 +479,34 @@ def r15_9(ctx):
     ctx.floor("R15.9", "insertion helpers", n, 2)
 
 
-RULES = [("R15.1", r15_a), ("R15.2", r15_2), ("R15.3", r15_3), ("R15.4", r15_4), ("R15.5", r15_5), ("R15.6", r15_6), ("R15.7", r15_7), ("R15.8", r15_8), ("R15.9", r15_9)]
+def r15_10(ctx):
+    """the consuming array iterator shows what is left: next/next_back move the cursors `index`/`len` and take the element
+    out (leaving null behind), so every view of the remaining elements (as_slice, as_mut_slice) must be cut by both cursors,
+    as Vec's IntoIter does"""
+    prog = ctx.prog()
+    adt = "sonic_rs::value::array::IntoIter"
+    views = [f for f in prog.fns.values() if f.crate == "sonic_rs" and (f.self_adt or "") == adt and f.name in ("as_slice", "as_mut_slice") and f.kind != "Closure"]
+    ctx.floor("R15.10", "slice views of array::IntoIter", len(views), 2)
+    steps = [f for f in prog.fns.values() if f.crate == "sonic_rs" and (f.self_adt or "") == adt and f.name in ("next", "next_back")]
+    moved = set()
+    for g in steps:
+        for b, i, st in g.assigns():
+            names = [e[2] for e in st["lhs"][1] if isinstance(e, list) and e[0] == "."]
+            if names and names[-1] in ("index", "len"):
+                moved.add(names[-1])
+    ctx.ob("R15.10", "cursors", moved == {"index", "len"}, steps[0].loc() if steps else "", f"next / next_back advance the cursor fields {sorted(moved)}", nontrivial=False)
+    for f in views:
+        sl, leaves = backward_slice(f, [0])
+        fields = set()
+        for g in [f]:
+            for b, i, st in g.assigns():
+                for pl in rv_places(st["rv"]):
+                    names = [e[2] for e in pl[1] if isinstance(e, list) and e[0] == "."]
+                    if names and names[-1] in ("index", "len") and "IntoIter" in f.locals[pl[0]]["ty"] and st["lhs"][0] in sl:
+                        fields.add(names[-1])
+        ok = fields >= moved and bool(moved)
+        ctx.ob("R15.10", f"view:{f.name}", ok, f.loc(), f"{f.name} is cut by the cursor fields {sorted(fields)}" if ok else
+               f"{f.name} does not depend on {sorted(moved - fields)}: after next() it still shows the consumed positions (as null) where Vec's IntoIter shows only what is left")
+
+
+RULES = [("R15.1", r15_a), ("R15.2", r15_2), ("R15.3", r15_3), ("R15.4", r15_4), ("R15.5", r15_5), ("R15.6", r15_6), ("R15.7", r15_7), ("R15.8", r15_8), ("R15.9", r15_9), ("R15.10", r15_10)]
